@@ -67,6 +67,10 @@ def run(ctx):
         cases.append(("odd_parity", (rng.getrandbits(32),)))
     for v in (0, 1, 0xFFFFFFFF, 0x80000000, 0x7FFFFFFF, 0xFFFF0000, 0x0000FFFF):
         cases.append(("odd_parity", (v,)))
+    for k in range(0, 33):      # every power of two and its neighbours, every all-ones prefix: the boundaries of each fold
+        for v in {(1 << k) - 1, 1 << k, (1 << k) + 1, ((1 << k) | 1), (0xFFFFFFFF >> k), (0xFFFFFFFF << k) & 0xFFFFFFFF}:
+            if 0 <= v < (1 << 32):
+                cases.append(("odd_parity", (v,)))
     _res = fw.call_result(
         cases, check_impl=check_impl, nontrivial=lambda fn, a, o: o[0] == "OK",
         rule="all 256 byte values at key positions of 8/16/24-byte keys (every position in thorough), all 32 variants "
